@@ -357,6 +357,10 @@ pub fn run(
                     Verdict::Go
                 } else if ev.kind == "lock.blocked" {
                     Verdict::Go
+                } else if ev.kind == "choice.test.duration_us" {
+                    // The duration `veryl test` records per test (it orders the next run's
+                    // dispatch) is wall-clock time: replaced by a function of the schedule.
+                    Verdict::Value(1000 + (seq as u64 * 7919) % 100_000)
                 } else if ev.kind == "aot.main" || ev.kind == "aot.const" {
                     // The moment the background-compiled artefact becomes visible is wall-clock
                     // time; under this coordinator it is always "from the first dispatch"
